@@ -929,8 +929,8 @@ func ptrForm(v Val) (lin.Form, bool) {
 func (x *Exec) arith(st *State, op string, a, b Val, ty *cfront.CType, e *cfront.Node) Val {
 	w, sg := intInfo(ty)
 	org := "(" + a.String() + " " + op + " " + b.String() + ")"
-	if len(org) > 300 {
-		org = org[:300] + "…"
+	if len(org) > 8000 {
+		org = org[:8000] + "…"
 	}
 	unknown := func() Val { return x.freshInt(st, w, sg, org) }
 	if a.K != VInt || b.K != VInt {
